@@ -17,6 +17,7 @@
 package pset
 
 import (
+	"crypto/sha256"
 	"bytes"
 	"encoding/base64"
 	"encoding/hex"
@@ -394,6 +395,9 @@ func (p *Pset) getHashAndScriptForSignature(inputIndex int, sigHashType uint32) 
 		}
 		prevout := input.NonWitnessUtxo.Outputs[prevoutIndex]
 		if input.RedeemScript != nil {
+			if !isRedeemScriptOf(input.RedeemScript, prevout.Script) {
+				return nil, nil, errors.New("redeem script does not match the spent script")
+			}
 			script = input.RedeemScript
 		} else {
 			script = prevout.Script
@@ -405,6 +409,10 @@ func (p *Pset) getHashAndScriptForSignature(inputIndex int, sigHashType uint32) 
 			if input.WitnessScript == nil {
 				return nil, nil,
 					errors.New("segwit input needs witnessScript if not p2wpkh")
+			}
+			if !isWitnessScriptOf(input.WitnessScript, script) {
+				return nil, nil,
+					errors.New("witness script does not match the witness program")
 			}
 			hash = p.UnsignedTx.HashForWitnessV0(
 				inputIndex,
@@ -442,6 +450,9 @@ func (p *Pset) getHashAndScriptForSignature(inputIndex int, sigHashType uint32) 
 		}
 	} else if input.WitnessUtxo != nil {
 		if input.RedeemScript != nil {
+			if !isRedeemScriptOf(input.RedeemScript, input.WitnessUtxo.Script) {
+				return nil, nil, errors.New("redeem script does not match the spent script")
+			}
 			script = input.RedeemScript
 		} else {
 			script = input.WitnessUtxo.Script
@@ -464,6 +475,10 @@ func (p *Pset) getHashAndScriptForSignature(inputIndex int, sigHashType uint32) 
 				txscript.SigHashType(sigHashType),
 			)
 		case address.P2WshScript:
+			if !isWitnessScriptOf(input.WitnessScript, script) {
+				return nil, nil,
+					errors.New("witness script does not match the witness program")
+			}
 			hash = p.UnsignedTx.HashForWitnessV0(
 				inputIndex,
 				input.WitnessScript,
@@ -480,6 +495,26 @@ func (p *Pset) getHashAndScriptForSignature(inputIndex int, sigHashType uint32) 
 	}
 
 	return hash[:], script, nil
+}
+
+// isRedeemScriptOf reports whether spent is a P2SH script committing to redeem.
+func isRedeemScriptOf(redeem, spent []byte) bool {
+	if len(spent) != 23 || spent[0] != txscript.OP_HASH160 ||
+		spent[1] != txscript.OP_DATA_20 || spent[22] != txscript.OP_EQUAL {
+		return false
+	}
+	return bytes.Equal(payment.Hash160(redeem), spent[2:22])
+}
+
+// isWitnessScriptOf reports whether program is a v0 P2WSH script committing to
+// witnessScript.
+func isWitnessScriptOf(witnessScript, program []byte) bool {
+	if len(program) != 34 || program[0] != txscript.OP_0 ||
+		program[1] != txscript.OP_DATA_32 {
+		return false
+	}
+	h := sha256.Sum256(witnessScript)
+	return bytes.Equal(h[:], program[2:])
 }
 
 func (p *Pset) verifyScriptForPubKey(
